@@ -88,6 +88,11 @@ def memory_run(plan_, nthreads, oplists, counters):
                     logger.write(m, sers[t])
                     wrote[t].append(seq)
                     seq += 1
+                elif op == "write_invalid":
+                    m = {"tag": t, "message_type": "w%d" % t, "task_uuid": "u", "task_level": [1], "timestamp": 1.0, "seq": seq, "undeclared": object()}
+                    logger.write(m, sers[t])
+                    wrote[t].append(seq)
+                    seq += 1
                 elif op == "tb":
                     try:
                         raise Flushable("t%d" % t)
@@ -96,6 +101,11 @@ def memory_run(plan_, nthreads, oplists, counters):
                     wrote[t].append("tb")
                 elif op == "validate":
                     logger.validate()
+                elif op == "validate_expect_error":
+                    try:
+                        logger.validate()
+                    except (eliot.ValidationError, TypeError, KeyError):
+                        pass  # legitimate verdict on the invalid message
                 elif op == "serialize":
                     results[t].append(("serialize", logger.serialize()))
                 elif op == "flush":
@@ -162,7 +172,19 @@ def run_memory(spec, res):
     nthreads = rng.choice([2, 2, 3, 3, 4])
     # validate() serializes the stored messages in place (documented), so it is not idempotent and a serialized traceback
     # message cannot be serialized again: a run has either traceback ops or a single validate() call, never both
-    if rng.random() < 0.5:
+    r0 = rng.random()
+    if r0 < 0.12:
+        # a validate() that is expected to raise (an invalid message was written) must leave the logger usable for everybody
+        pool = ["write", "write_invalid", "validate_expect_error", "reset", "write"]
+        oplists = [[rng.choice(pool) for _ in range(rng.randint(2, 3))] for _ in range(nthreads)]
+        oplists[0][0] = "write_invalid"
+        oplists[-1][0] = "validate_expect_error"
+    elif r0 < 0.3:
+        # messages that fail validation at write time take the error-recording path of write(); serialize()/validate() would
+        # legitimately raise for them, so those ops are left out of such runs
+        pool = ["write", "write_invalid", "write_invalid", "tb", "flush", "reset"]
+        oplists = [[rng.choice(pool) for _ in range(rng.randint(1, 3))] for _ in range(nthreads)]
+    elif r0 < 0.6:
         pool = [o for o in OPS if o != "validate"]
         oplists = [[rng.choice(pool) for _ in range(rng.randint(1, 3))] for _ in range(nthreads)]
     else:
@@ -170,7 +192,7 @@ def run_memory(spec, res):
         oplists = [[rng.choice(pool) for _ in range(rng.randint(1, 3))] for _ in range(nthreads)]
         t = rng.randrange(nthreads)
         oplists[t][rng.randrange(len(oplists[t]))] = "validate"
-    if not any("write" in o for o in oplists):
+    if not any(("write" in o or "write_invalid" in o) for o in oplists):
         oplists[(0 if "validate" not in oplists[0] or len(oplists[0]) > 1 else 1) % nthreads].append("write")
     names = ["T%d" % t for t in range(nthreads)]
     orders = list(itertools.permutations(names)) if nthreads <= 3 else [tuple(rng.sample(names, nthreads)) for _ in range(6)]
